@@ -103,7 +103,12 @@ TREES = [
     [[], [3]],
     {'a': {'b': [2, 3, 4]}, 'c': [129], 'd': [1]},
     ([40], [40], [64]),
+    {'decoder': {'w': [6, 8]}, 'encoder': {'w': [6, 8]}},       # tied embedding: ONE array object at both positions
+    [[45], [3], [45]],                                          # [bias, other, bias]: same object at positions 0 and 2
+    {'a': [40], 'b': {'c': [40], 'd': [2, 3]}, 'e': [40]},      # one object at three positions
 ]
+# tree index -> {leaf position (flattening order): earlier position whose array OBJECT it shares}
+TIED = {4: {1: 0}, 5: {2: 0}, 6: {1: 0, 3: 0}}
 
 
 def _t(n, block, vec, jit=True, kw=1):
@@ -415,9 +420,14 @@ def run_P(case):
     st += 1
   if case['tree'] == 3:
     xs_all[1] = list(xs_all[0])     # two identical leaves: must still get different sign vectors
+  tied = TIED.get(case['tree'], {})
+  for j, i in tied.items():
+    xs_all[j] = list(xs_all[i])
   try:
-    params = jax.tree_util.tree_unflatten(
-        treedef, [jnp.asarray(np.array(x, np.float32).reshape(sh)) for x, sh in zip(xs_all, shapes)])
+    arrays = [jnp.asarray(np.array(x, np.float32).reshape(sh)) for x, sh in zip(xs_all, shapes)]
+    for j, i in tied.items():
+      arrays[j] = arrays[i]         # the very same array object (tied / shared parameters)
+    params = jax.tree_util.tree_unflatten(treedef, arrays)
     key = jax.random.PRNGKey(case['key'])
     rot, rec = wh.structured_rotation_pytree(params, key)
     back = wh.inverse_structured_rotation_pytree(rot, key, rec)
@@ -542,8 +552,11 @@ def oracle(case, obs):
       return out
     for i, lf in enumerate(obs['leaves']):
       _rot_checks(out, 'tree.', lf['shape'], lf['x'], lf['rot'], lf['rec_shape'], lf['back'], lf['back_shape'], lf['hd_dev'])
-    if case['tree'] == 3 and obs['leaves'][0]['signs'] == obs['leaves'][1]['signs']:
-      out.append(('tree.leaves-share-key', 'two leaves of one tree were rotated with the same sign vector'))
+    pairs = [(0, 1)] if case['tree'] == 3 else [(i, j) for j, i in TIED.get(case['tree'], {}).items()]
+    for i, j in pairs:
+      if obs['leaves'][i]['signs'] == obs['leaves'][j]['signs']:
+        out.append(('tree.leaves-share-key', f'leaves {i} and {j} of one tree (equal values'
+                    f'{", the same array object" if case["tree"] != 3 else ""}) were rotated with the same sign vector'))
     return out
   raise KeyError(kind)
 
